@@ -34,8 +34,9 @@ type Case struct {
 	Transport string `json:"transport"` // inproc | tcp4 | tcp6
 	TrustXFF  bool   `json:"trust_xff"` // Demon.TrustXForwardedFor of the rig profile
 	Bind      string `json:"bind,omitempty"`
-	Start     Cfg    `json:"start"`          // configuration given to ListenerStart
-	Edit      *Cfg   `json:"edit,omitempty"` // configuration given to ListenerEdit afterwards
+	Start     Cfg    `json:"start"`              // configuration given to ListenerStart
+	Edit      *Cfg   `json:"edit,omitempty"`     // configuration given to ListenerEdit afterwards
+	EditVia   string `json:"edit_via,omitempty"` // "operator": the edit arrived as an operator's Listener/Edit package
 	Req       Req    `json:"req"`
 	Labels    string `json:"labels,omitempty"`
 }
@@ -189,6 +190,8 @@ var uriSets = [][]string{
 	nil,
 	{"/index.php"},
 	{"/index.php", "/api/v2/sync?id=7", "/static/js/app.min.js"},
+	// commas that separate nothing
+	{"/feed,rss", "/a,b/c"},
 }
 
 var headerSets = [][]string{
@@ -198,6 +201,8 @@ var headerSets = [][]string{
 	{"Accept-Encoding: gzip", "X-Url: http://cdn.example:8080/x", "X-Token: s3cr3t-tok"},
 	// ignored + value containing ": " + value containing ':'
 	{"Connection: Keep-Alive", "X-Meta: kind: beacon", "X-Url: http://cdn.example:8080/x"},
+	// value with commas that separate nothing
+	{"Accept: text/html,application/xhtml+xml", "X-Token: s3cr3t-tok"},
 }
 
 var respSets = [][]string{
